@@ -14,7 +14,7 @@ use lexical_util::iterator::{AsBytes, DigitsIter};
 use lexical_util::step::u64_step;
 
 use crate::float::{ExtendedFloat80, RawFloat};
-use crate::mask::lower_n_halfway;
+use crate::mask::{lower_n_halfway, lower_n_mask};
 use crate::number::Number;
 use crate::shared;
 
@@ -51,10 +51,10 @@ pub fn binary<F: RawFloat, const FORMAT: u128>(num: &Number, lossy: bool) -> Ext
     // disambiguate the float. If it's even, and exactly halfway, this
     // step fails.
     let power2 = shared::calculate_power2::<F, FORMAT>(num.exponent, ctlz);
-    if -power2 + 1 >= 64 {
-        // Have more than 63 bits below the minimum exponent, must be 0.
-        // Since we can't have partial digit rounding, this is true always
-        // if the power-of-two >= 64.
+    if -power2 + 1 > 64 {
+        // Have more than 64 bits below the minimum exponent, must be 0.
+        // With exactly 64 bits the value is in the range `[0.5, 1)` of
+        // the smallest denormal float, which can still round up.
         return fp_zero;
     }
 
@@ -64,8 +64,11 @@ pub fn binary<F: RawFloat, const FORMAT: u128>(num: &Number, lossy: bool) -> Ext
     let shift = shared::calculate_shift::<F>(power2);
 
     // Determine if we can see if we're at a halfway point.
-    let last_bit = 1u64 << shift;
-    let truncated = last_bit - 1;
+    let last_bit = match shift == 64 {
+        true => 0,
+        false => 1u64 << shift,
+    };
+    let truncated = lower_n_mask(shift as u64);
     let halfway = lower_n_halfway(shift as u64);
     let is_even = mantissa & last_bit == 0;
     let is_halfway = mantissa & truncated == halfway;
